@@ -644,6 +644,11 @@ func exec(c vh.Case, o *vh.Out) {
 				break
 			}
 			o.Kind("ret-" + f[2])
+		case "consts":
+			// the constants the model transcribes by hand (nextBackoff itself is regenerated)
+			o.Kind("consts")
+			o.Emit("initial=%d max=%d", int64(peering.VerifInitialDelay), int64(peering.VerifMaxBackoff))
+			continue
 		case "list":
 			if busy {
 				res = "disabled"
